@@ -232,6 +232,13 @@ def run(ck):
             expected = expected_direct(ck.runner, frac, contexts)
             for fe in fes:
                 compare_run(ck, fe, f'{setname}/sub-second/{carrier}', frac, contexts, run_frontend(ck.runner, fe, frac, src), expected)
+    # stream ids that become equal once made CF-safe ('t.1' and 't_1'): still two streams, each tested on its own column
+    clash = Table(5, streams=('t.1', 't_1'), missing={'t.1': {2}, 't_1': {0}})
+    contexts = [dict(window=(None, None), tests={'t.1': ['gross', 'spike'], 't_1': ['gross', 'valid']})]
+    src = make_config_source(contexts)
+    expected = expected_direct(ck.runner, clash, contexts)
+    for fe in ('numpy', 'pandas', 'netcdf', 'xarray'):
+        compare_run(ck, fe, 'names-equal-after-cf-renaming', clash, contexts, run_frontend(ck.runner, fe, clash, src), expected)
     # the same context (equal window) listed twice, not adjacently: all of its calls must still run
     table = tables[0]
     contexts = [dict(window=(t(0), t(2)), tests={'a': ['gross']}), dict(window=(t(2), t(5)), tests={'a': ['gross', 'spike']}),
